@@ -162,7 +162,7 @@ test_sequence = [
         # ops_set
         memcpy_ops,
         # incompatible_pack_flags
-        PassFlags.Cpu | PassFlags.MemoryOnly | PassFlags.Mac | PassFlags.Main | PassFlags.PostFusingLimited,
+        PassFlags.Cpu | PassFlags.MemoryOnly | PassFlags.Mac | PassFlags.Main | PassFlags.Post | PassFlags.PostFusingLimited,
         # flags_to_set
         PassFlags.Npu | PassFlags.Memcpy | PassFlags.Main,
         # flags_to_clear
